@@ -133,6 +133,21 @@ def one(item):
                     paths.append(os.path.join(tmp, 'lc', 'part%d.xtuml' % i))
                     open(paths[-1], 'w').write(''.join(stmts[i:i + k3]))
                 c = bridgepoint.load_component(paths if len(paths) > 1 else paths[0], name)
+            elif item.get('via', 'loader') == 'sql_main':
+                # the command-line tool: python -m bridgepoint.gen_sql_schema [-c NAME] [-d] -o OUT MODEL...; what it writes is
+                # loaded as the component
+                from bridgepoint import gen_sql_schema
+                mp = os.path.join(tmp, 'model_for_sql.xtuml')
+                open(mp, 'w').write(''.join(stmts))
+                outp = os.path.join(tmp, 'component.sql')
+                argv = ['gen_sql_schema'] + (['-c', name] if name else []) + (['-d'] if item.get('derived') else []) + ['-o', outp, mp]
+                old_argv = sys.argv
+                try:
+                    sys.argv = argv
+                    gen_sql_schema.main()
+                finally:
+                    sys.argv = old_argv
+                c = xtuml.load_metamodel(outp)
             elif item.get('via', 'loader') in ('loader', 'load_component'):
                 c = loader.build_component(name, bool(item.get('derived')))
             else:
